@@ -169,10 +169,25 @@ PROPS["C20"]["engines"] = ["server", "query", "flood"]
 PROPS["C20"]["rule"] += (" ; flood engine: timed limiters (rate 100..1000/s, burst 1..20): writes in every prefix window <= burst + rate x window "
                          "(one-sided, real time), replies dropped without budget (wait off) or delayed (wait on), errors never wait")
 PROPS["C07"]["engines"] = ["server", "query"]
-PROPS["C19"]["engines"] = ["server", "query"]
+PROPS["C19"]["engines"] = ["server", "query", "lookups"]
 PROPS["C19"]["rule"] += (" ; query engine: NumTries 0..4 with SetIPBlockList covering the destination inside or after the i-th send, also followed by "
                          "a reply from the now-blocked source: no further datagram may leave")
 PROPS["C16"]["rule"] += " ; mixed 4-byte / IPv4-mapped / IPv6 node representations (starting nodes and nodes6 listings)"
+# lookups engine, third case family (harness/cmd/h/lookups_block.go); a C19 run executes only these cases of the engine (VERIF_PROP)
+PROPS["C19"]["rule"] += (" ; lookups engine, blocklist cases: Bootstrap / Announce / AnnounceTraversal / getput.Get / Put of a Server whose blocklist is "
+                         "configured, installed before the lookup, and / or replaced by a bigger one while the lookup runs (single addresses, /24 and /112 "
+                         "ranges, IPv4, IPv6, v4-mapped nodes6 entries), on networks whose acceptable nodes list blocked addresses that are closer to the "
+                         "target than anything else (also a blocked starting node); the late list is installed before the first reply that reveals what it "
+                         "adds, or while Server.TraversalNodeFilter's list lookup for one such candidate is parked (old list's verdict arrives after "
+                         "SetIPBlockList returned); after the lookup every covered address pings and is pinged, a list adding a node of the routing "
+                         "table is installed, more probes, and a Bootstrap seeded from the routing table runs; line lkbegun (DoQuery calls = NumContacted / "
+                         "NumAddrsTried against the model's TIssue count = query datagrams), oracles datagram-to-blocked-address:lookup:*, "
+                         "lookup-queried-blocked-address:*, server-query-to-blocked-address:*, blocked-source-had-effect:after-lookup:*, "
+                         "query-to-blocked-address-sent:after-lookup:*")
+PROPS["C19"]["trusted"] = PROPS["C19"]["trusted"] + [
+    "lookups engine: anacrolix/torrent/iplist (the lists are its IPList; the harness asks the same list which addresses it covers); the parked "
+    "filter call is recognised by the TraversalNodeFilter frame on the list's call stack; a DoQuery call without a datagram is a refused write "
+    "(no write faults, no stop, unlimited send budget in these cases)"]
 PROPS["C12"]["rule"] += " ; getput.Get with a non-nil caller seq against nodes ignoring / honouring it"
 
 TRAV_RULE = ("traversal engine: real traversal.Start with a scripted blocking DoQuery; the explorer releases completions, AddNodes and "
@@ -221,6 +236,12 @@ PROPS["C11"]["rule"] += (" ; api engine: bursts of first announces for fresh inf
                          "(datagrams queued at the socket) or behind a gate releasing the per-announce goroutines together; at rest GetPeers (`astore` "
                          "lines) and get_peers from IPv4 / IPv6 requesters with want -, n4+n6, n6 (`apeers` lines) equal the fold of add_peer over the "
                          "accepted announces (+ BEP 32 filter); oracles: every accepted announcer returned, nothing unannounced, one listing per host, token")
+PROPS["C11"]["rule"] += (" ; api engine, floods (srv_api_flood.go): 40-1500 (thorough 3000) hosts with tokens announce back to back through a deep socket "
+                         "queue to 1-3 fresh infohashes while the store is plain / under GOMAXPROCS(1) / contended by GetPeers+GetAll readers / slow (AddPeer "
+                         "sleeps) / held until every announce is acknowledged (sometimes 100-250 ms longer) / the Server is closed right after the acks and a "
+                         "sibling Server on the same store is asked; in half of the rounds a second flood re-announces hosts with new ports once the store is "
+                         "at rest; get_peers inside the flood; at rest every acknowledged announcer must be listed with its last port (`apeers` / `astore` lines "
+                         "over flood 1 ++ flood 2, oracles accepted-announce-missing-from-get_peers:announce-flood-*, acknowledged-announce-lost-when-server-closed:*)")
 PROPS["C11"]["trusted"] = PROPS["C11"]["trusted"] + API_TRUSTED
 PROPS["C16"]["rule"] += (" ; write faults (lookups_fault.go): WriteTo failing per destination and query kind (a candidate / starting node / every IPv6 "
                          "address / listed ghosts unwritable, only the announce_peer after a served get_peers, short writes, the i-th write of the run, "
